@@ -373,9 +373,12 @@ def handleEmu (toks : List String) : String :=
   match kvNat? toks "fix", (kv? toks "todo").bind natList? with
   | some f, some todo =>
     let wfs : List EWf := todo.map (fun t => { todo := t, atBarrier := false, completed := false, bar := 0 })
+    let brief := kvNat? toks "brief" == some 1
     match emuRunWG (f != 0) (todo.foldl max 0 + 2) wfs with
     | none => "panic"
-    | some (w, done) => (if done then "done " else "loop ") ++ joinWith "," (w.map (fun x => toString x.bar))
+    | some (w, done) =>
+      if brief then (if done then "done" else "loop")
+      else (if done then "done " else "loop ") ++ joinWith "," (w.map (fun x => toString x.bar))
   | _, _ => "bad"
 
 def handle (line : String) : String :=
